@@ -52,16 +52,17 @@ def make_custom(overrides, sink, value_eq=False, indirect=False):
         # objects of this kind compare equal, both are listeners in their own right
         body["__eq__"] = lambda self, other: type(other).__name__ == type(self).__name__
         body["__hash__"] = lambda self: hash(type(self).__name__)
+    # the overrides use parameter names of the user's own choice: the callbacks are a positional contract
     if "BeforeMethodStart" in overrides:
-        def BeforeMethodStart(self, method):
+        def BeforeMethodStart(self, theMethod):
             sink.append("start")
         body["BeforeMethodStart"] = BeforeMethodStart
     if "OnEndIteration" in overrides:
-        def OnEndIteration(self, savedNewPoints, solution):
-            sink.append("iter%d" % len(savedNewPoints))
+        def OnEndIteration(self, newTrials, currentSolution):
+            sink.append("iter%d" % len(newTrials))
         body["OnEndIteration"] = OnEndIteration
     if "OnMethodStop" in overrides:
-        def OnMethodStop(self, searchData, solution, status):
+        def OnMethodStop(self, data, finalSolution, stopped):
             sink.append("stop")
         body["OnMethodStop"] = OnMethodStop
     name = "Custom_" + "_".join(sorted(overrides)) or "Custom_none"
@@ -148,6 +149,9 @@ def cases(draw):
     case = {"recipe": recipe, "params": params, "customs": customs, "shipped": shipped, "ops": ops, "refine": refine}
     case["value_eq"] = draw(st.integers(0, 3)) == 0
     case["indirect"] = draw(st.integers(0, 3)) == 0
+    if draw(st.integers(0, 3)) == 0:
+        # a user problem that declares only what iOpt.problem.Problem declares (no `dimension` attribute)
+        case["recipe"] = dict(recipe, style=dict(recipe.get("style") or {}, no_dimension=True))
     sp = draw(gen.start_points(recipe))
     if sp is not None:
         case["params"] = dict(params, startPoint=sp)
